@@ -415,6 +415,15 @@ func (w *World) Apply(ctx sdk.Context, l *Ledger, op Op, fail func(a, s, d strin
 		if np.Liquidity.LT(p.Liq) {
 			fail("add.liquidity-not-decreased", "", fmt.Sprintf("old %s new %s", p.Liq, np.Liquidity))
 		}
+	case "equalize":
+		// seed helper: the partial withdrawal that makes positions P and Q hold equal liquidity, from whichever holds more
+		if op.P >= len(l.Pos) || op.Q >= len(l.Pos) {
+			return ctx, "rejected:no-such-position"
+		}
+		if l.Pos[op.P].Liq.GT(l.Pos[op.Q].Liq) {
+			return w.Apply(ctx, l, Op{K: "withdraw", P: op.P, Q: op.Q + 1}, fail)
+		}
+		return w.Apply(ctx, l, Op{K: "withdraw", P: op.Q, Q: op.P + 1}, fail)
 	case "withdraw":
 		if op.P >= len(l.Pos) {
 			return ctx, "rejected:no-such-position"
